@@ -58,8 +58,9 @@ CHECKS.update({
                  "compiler's semiring; the tensor-dot layer's kernel and the shatter rules for Kronecker-product weights; optimize_graph (denotation-preserving on "
                  "8 graph templates with uninterpreted module functions; its main loop by the loop rule with frame-guarded maps); group_foldable_modules (grouped "
                  "only if foldable, incl. wrapped sub-modules); layerwise_topological_ordering; the glue (_post_process_circuit, _fold_circuit, _fold_parameters, "
-                 "_optimize_layers, _optimize_parameter_nodes, _optimize_circuit) and the compiler's parameter registry (frame-guarded); match prioritisation "
-                 "(exhaustive on line graphs) and flag-independence end-to-end on arbitrary circuits are a bounded stand-in: four flag settings with tied parameters vs the reference interpreter"),
+                 "_optimize_layers, _optimize_parameter_nodes, _optimize_circuit) and the compiler's parameter registry (frame-guarded); match_optimization_patterns + _prioritize_optimization_strategy on six "
+                 "graph templates (every subset of the candidate chains found, every priority order: returned matches pairwise disjoint, module map consistent with "
+                 "them, outputs never fused away) = the precondition of optimize_graph; prioritisation on longer line graphs and flag-independence end-to-end on arbitrary circuits are a bounded stand-in: four flag settings with tied parameters vs the reference interpreter"),
     "C03": mixed("contract obligations: every integration rule against the spec integral (sum over states / logsumexp / log-partition, right space flag, "
                  "refusal outside the scope) for all sizes; functional.integrate executed symbolically on four circuit templates x five input kinds with "
                  "symbolic variable ids, unit counts and Z: one layer per layer, wiring and output order mirrored, integrated layers constant, others "
